@@ -724,7 +724,7 @@ fn grid(rng: &mut Rng, thorough: bool, f11b: bool) -> Vec<RetCfg> {
 }
 
 #[allow(clippy::too_many_arguments)]
-fn run_history(out: &mut Out, it: &mut Interner, srv: &mut Server, rec: &Recorder, rng: &mut Rng, g: &mut Gen, rc: RetCfg, hist: u64, strict: bool, steps: u64, hostcase: bool) {
+fn run_history(out: &mut Out, it: &mut Interner, srv: &mut Server, rec: &Recorder, rng: &mut Rng, g: &mut Gen, rc: RetCfg, hist: u64, strict: bool, steps: u64, hostcase: bool) -> bool {
     let pubs = ["alice", "bob", "a/b"];
     let small = rng.chance(25); // all objects small: the size rule of retention bites
     let repo = srv.repo_dir().to_string_lossy().to_string();
@@ -780,9 +780,19 @@ fn run_history(out: &mut Out, it: &mut Interner, srv: &mut Server, rec: &Recorde
                     else { srv.manager(&rc).rrdp_session_reset().map_err(|e| e.to_string()) }
                 }));
                 let trace = rec.stop();
+                let (ok, err, panicked) = match &res { Ok(Ok(())) => (true, String::new(), false), Ok(Err(e)) => (false, e.clone(), false),
+                    Err(p) => (false, format!("panic: {}", p.downcast_ref::<String>().cloned().or_else(|| p.downcast_ref::<&str>().map(|s| s.to_string())).unwrap_or_default()), true) };
+                if panicked {
+                    // the storage lock is poisoned now: record the request that panicked and give this server up
+                    let orc = format!("(mkOracle {} 0 {} {})", coq_z((chrono::Utc::now() - it.t0).num_microseconds().unwrap()), pre.session, rc.coq());
+                    let term = format!("(KTrans {} {} {} {} None {})", coq_sizes(it, &pre, &pre), coq_rrdp(&pre, it), if op == "update" { "OUpdate" } else { "OReset" }, orc, strict);
+                    let class = json!({"retained_over_max_nr": false, "protected_by_configured_minimum": false, "cause": "", "max_nr_zero_panic": rc.max_nr == 0, "panicked": true});
+                    out.push(term, json!({"history": hist, "config": rc.json(), "request": op, "result": err.clone(), "serial_before": pre.serial,
+                        "deltas_before": pre.deltas.iter().map(|d| d.serial).collect::<Vec<_>>(), "class": class}), "trans", true);
+                    return false;
+                }
                 let post_raw = walk(&srv.repo_dir());
                 let post = srv.observe(it);
-                let (ok, err, panicked) = match &res { Ok(Ok(())) => (true, String::new(), false), Ok(Err(e)) => (false, e.clone(), false), Err(_) => (false, "panic".to_string(), true) };
                 out.bump(op);
                 // the transition
                 let newest_time = post.deltas.first().map(|d| d.time).unwrap_or(0);
@@ -807,7 +817,6 @@ fn run_history(out: &mut Out, it: &mut Interner, srv: &mut Server, rec: &Recorde
                 out.push(term, recj, "trans", op == "reset" || staged_nonempty);
                 if over { out.bump("transitions_retaining_more_than_max_nr"); }
                 if !ok && !panicked { out.impl_failures.push(json!({"index": Value::Null, "class": {"kind": "write_failed", "op": op, "f11c": old_nonempty(&pre_raw)}, "what": err.clone()})); }
-                if panicked { continue }
                 // the files
                 if op == "reset" || staged_nonempty {
                     if post.session_str != cur_session { cur_session = post.session_str.clone(); olds.clear(); }
@@ -831,6 +840,7 @@ fn run_history(out: &mut Out, it: &mut Interner, srv: &mut Server, rec: &Recorde
             }
         }
     }
+    true
 }
 
 // ---------------------------------------------------------------- workers (cut points)
@@ -1137,7 +1147,7 @@ fn run(args: &Args) -> i32 {
             for rc in chunk {
                 hist += 1;
                 *cfg_hist.entry(format!("min_nr={},max_nr={},min_s={},max_s={}{}", rc.min_nr, rc.max_nr, rc.min_secs, rc.max_secs, if rc.archive { ",archive" } else { "" })).or_default() += 1;
-                run_history(&mut out, &mut it, &mut srv, &rec, &mut rng, &mut g, *rc, hist, strict, steps, true);
+                if !run_history(&mut out, &mut it, &mut srv, &rec, &mut rng, &mut g, *rc, hist, strict, steps, true) { break }
             }
             drop(srv);
             if std::env::var("KV_KEEP").is_err() { let _ = std::fs::remove_dir_all(&dir); }
